@@ -9,7 +9,7 @@ from .core import Check
 
 STRUCT14 = ["Append", "Insert", "Remove", "Pop", "Clear", "DeleteLayer", "MoveToGroup", "MoveUp", "NewGroup", "GroupLayers", "NewPixel"]
 SET14 = ["SetVisible", "SetLeft", "SetTop", "SetClip"]
-OBS14 = list(ec.OBSERVERS)
+OBS14 = [o for o in ec.OBSERVERS if o != "ObsExport"]  # exporting reads: separate stream, compared without caches
 FAM = STRUCT14 + SET14 + OBS14
 FAM_WALK = STRUCT14 + SET14 * 2 + OBS14 * 2 + ["NewDoc"]
 
@@ -239,6 +239,9 @@ def _stale(f):
 core.KNOWN_CLASSIFIERS["F-C14-1"] = lambda f: _stale(f) and "struct" in _c(f)
 core.KNOWN_CLASSIFIERS["F-C14-2"] = lambda f: _stale(f) and "doc-setter" in _c(f)
 core.KNOWN_CLASSIFIERS["F-C14-3"] = lambda f: _stale(f) and "ancestor-visibility" in _c(f)
+core.KNOWN_CLASSIFIERS["F-C14-6"] = lambda f: (
+    f["kind"] in ("purity-composite", "purity-bytes") and f["input"].get("differing_docs_empty") is True
+    and f["input"].get("differing_docs_saved_earlier") is True)
 core.KNOWN_CLASSIFIERS["F-C14-5"] = lambda f: _stale(f) and "stale-parent-chain" in _c(f)
 core.KNOWN_CLASSIFIERS["F-C14-4"] = lambda f: (_stale(f) or f["kind"] == "fresh-bbox-wrong") and "alias" in _c(f)
 
@@ -255,6 +258,12 @@ def _w(case, kinds):
 core.KNOWN_WITNESS["F-C14-1"] = _w((4, [("NewGroup", 0), ("ObsBbox", 4), ("NewPixel", 0, 2, 2, 3, 3), ("Append", 4, 5)]), ("stale-cache",))
 core.KNOWN_WITNESS["F-C14-2"] = _w((4, [("ObsBbox", 0), ("SetLeft", 1, 5)]), ("stale-cache",))
 core.KNOWN_WITNESS["F-C14-3"] = _w((1, [("ObsBbox", 2), ("SetVisible", 1, False)]), ("stale-cache",))
+def _w6():
+    _, fails, _ = _work_export((4, [("ObsExport", 0, 3), ("Clear", 0)]))
+    return any(k in ("purity-composite", "purity-bytes") for k, _i, _o, _e in fails)
+
+
+core.KNOWN_WITNESS["F-C14-6"] = _w6
 core.KNOWN_WITNESS["F-C14-5"] = _w((1, [("Remove", 1, 2), ("ObsBbox", 2), ("SetVisible", 1, False)]), ("stale-cache",))
 core.KNOWN_WITNESS["F-C14-4"] = _w((4, [("Append", 0, 3), ("ObsBbox", 2), ("SetLeft", 3, 6), ("ObsBbox", 0), ("SetLeft", 3, 0)]), ("stale-cache",))
 
@@ -269,6 +278,68 @@ def final_answers(w):
         except RecursionError:
             res.append("RecursionError")
     return res
+
+
+def doc_renderings(w):
+    """what the documents look like and what save() writes, at the end of a history"""
+    res = {}
+    for i in range(len(w.objs)):
+        if w.kind(i) != ec.KDOC:
+            continue
+        ob = w.objs[i]
+        try:
+            im = ob.composite()
+            res["composite:%d" % i] = None if im is None else (im.mode, im.size, im.tobytes().hex())
+        except Exception as e:  # noqa
+            res["composite:%d" % i] = "raised " + type(e).__name__
+        try:
+            res["saved:%d" % i] = ec.save_reopen(ob)[1].hex()
+        except Exception as e:  # noqa
+            res["saved:%d" % i] = "raised " + type(e).__name__
+    return res
+
+
+def _work_export(case):
+    """histories with exporting reads (topil / numpy / composite / save to a scratch buffer / mask, effects, print):
+    stored state compared with the model without caches; twin run without the reads must end in the same stored
+    state, the same answers, the same composite and the same saved bytes"""
+    fails = []
+    orc = CacheOracle(lambda kind, inp, obs, exp: fails.append((kind, inp, obs, exp)), case)
+    w, ds, outs = ec.run_case(case, hooks=(orc,), nc=True)
+    stats = {}
+    for o in case[1]:
+        if o[0] == "ObsExport":
+            key = "export:%s:%s" % (ec.EXPORT_KINDS[o[2]], "doc" if w.kind(o[1]) == ec.KDOC else "layer")
+            stats[key] = stats.get(key, 0) + 1
+    for e in w.export_errors:
+        stats["export-raised:" + e] = stats.get("export-raised:" + e, 0) + 1
+    if not w.dead:
+        stripped = (case[0], [o for o in case[1] if o[0] not in ec.OBSERVERS])
+        w2, _, _ = ec.run_case(stripped)
+        base = {"scene": case[0], "history": [list(o) for o in case[1]], "causes": sorted(orc.causes_seen)}
+        if not w2.dead:
+            if state_nocache(w) != state_nocache(w2):
+                fails.append(("purity-state", base, "stored state differs", "same stored state (caches aside) as without the read-only operations"))
+            else:
+                a1, a2 = final_answers(w), final_answers(w2)
+                r1, r2 = doc_renderings(w), doc_renderings(w2)
+                if a1 != a2:
+                    bad = [i for i in range(len(a1)) if a1[i] != a2[i]]
+                    for i in bad:
+                        orc._causes(w, i)
+                    base["causes"] = sorted(orc.causes_seen)
+                    fails.append(("purity-answers", dict(base, objects=bad), [a1[i] for i in bad], [a2[i] for i in bad]))
+                elif r1 != r2:
+                    bad = sorted(k for k in r1 if r1[k] != r2.get(k))
+                    docs = sorted(set(int(k.split(":")[1]) for k in bad))
+                    extra = {"differs": bad,
+                             "differing_docs_empty": all(len(w.objs[d]._layers) == 0 for d in docs),
+                             "differing_docs_saved_earlier": all(any(o[0] == "ObsExport" and o[1] == d and o[2] == 3 for o in case[1]) for d in docs)}
+                    fails.append(("purity-bytes" if all(k.startswith("saved") for k in bad) else "purity-composite",
+                                  dict(base, **extra), {k: str(r1[k])[:80] for k in bad},
+                                  "composite and saved bytes equal to the run without the read-only operations"))
+                stats["twin-compared"] = stats.get("twin-compared", 0) + 1
+    return ec.case_digest(ds), fails, stats
 
 
 def _work(item):
@@ -314,6 +385,39 @@ def _work(item):
 
 def _work_err(item, msg):
     case = item[0]
+    inp = {"scene": case[0], "history": [list(o) for o in case[1]], "step": len(case[1]) - 1}
+    return [0], [("driver-exception", inp, msg, "the operation sequence runs")], {}
+
+
+def gen_export_cases(ck):
+    """edit / exporting read / edit interleavings, structure edits inside the guard"""
+    thorough = ck.tier == "thorough"
+    rng = ck.rng
+    cases = []
+    fam = STRUCT14 + SET14 * 2 + ["ObsExport"] * 5 + ["ObsBbox"]
+    # the pattern of the property text: structure edit, export of the document, attribute edit
+    for k in (0, 4, 1):
+        kinds = ec.kinds_after(ec.SCENES[k])
+        docs = [i for i, kd in enumerate(kinds) if kd == ec.KDOC]
+        pix = [i for i, kd in enumerate(kinds) if kd == ec.KPIXEL]
+        lay = [i for i, kd in enumerate(kinds) if kd != ec.KDOC]
+        edits1 = [("NewGroup", docs[0]), ("MoveUp", pix[0], 1), ("DeleteLayer", pix[0]), ("NewPixel", docs[0], 2, 2, 2, 2)]
+        edits2 = [("SetVisible", lay[0], False), ("SetLeft", pix[0], 5), ("SetTop", pix[-1], 0), ("SetVisible", lay[-1], False),
+                  ("MoveUp", lay[0], 1)]
+        for e1 in edits1:
+            for x in docs + lay[:2]:
+                for kk in range(5):
+                    for e2 in edits2:
+                        if rng.random() < (1.0 if thorough else 0.35):
+                            cases.append((k, [e1, ("ObsExport", x, kk), e2]))
+    n = 4000 if thorough else 500
+    for _ in range(n):
+        k = rng.choice([0, 1, 2, 3, 4, 5, 6])
+        cases.append(ec.random_walk(rng, k, rng.choice([3, 4, 6, 10]), fam, guarded=ec.structure_guard))
+    return [c for c in cases if any(o[0] == "ObsExport" for o in c[1])]
+
+
+def _work_export_err(case, msg):
     inp = {"scene": case[0], "history": [list(o) for o in case[1]], "step": len(case[1]) - 1}
     return [0], [("driver-exception", inp, msg, "the operation sequence runs")], {}
 
@@ -373,7 +477,8 @@ def gen_cases(ck):
 
 def run():
     ck = Check("C14")
-    ck.rule = ("histories interleaving read-only operations (bbox, size, repr, descendants, find, is_visible) with setters "
+    ck.rule = ("histories interleaving read-only operations (bbox, size, repr, descendants, find, is_visible; in a second stream the "
+               "exporting reads topil, numpy, composite, save to a scratch buffer, mask/effects/print of documents and layers) with setters "
                "(visible, left, top, clipping_layer) and structure edits on real psd_tools objects (7 scenes): every operation with "
                "every argument at length 1, the full product at length 2 and all observe/edit/observe triples from the small scene, "
                "uniform samples at length 3-5, random walks up to length 60; after every step the stored state incl. every _bbox "
@@ -401,10 +506,27 @@ def run():
     bad = ck.correspond("edit_histories", ec.digest_fn(), ec.IMPORTS, cc, ec.case_lit, chunk=600)
     for i in bad[:3]:
         ck.notes.append(ec.explain_mismatch(ck, cases[i], "c14_%d" % i)[:1500])
+    # exporting reads between edits
+    ecases = gen_export_cases(ck)
+    ck.count("cases:export-interleavings", len(ecases))
+    eres = ec.parallel_map(ec.Guarded(_work_export, _work_export_err), ecases, chunk=20)
+    ecc = []
+    for c, (dg, fails, stats) in zip(ecases, eres):
+        ecc.append((c, dg))
+        for kind, inp, obs, exp in fails:
+            ck.fail(kind, inp, obs, exp)
+        for key, v in stats.items():
+            ck.count(key, v)
+        ck.nontriv((c[0], repr(c[1])))
+    ck.sample({"export_history": [list(o) for o in ecases[len(ecases) // 3][1]], "scene": ecases[len(ecases) // 3][0]})
+    bad = ck.correspond("export_histories_without_caches", ec.digest_fn(nc=True), ec.IMPORTS, ecc, ec.case_lit, chunk=400)
+    for i in bad[:3]:
+        ck.notes.append("export stream: model/implementation stored state (caches aside) differ on %r" % (ecases[i],))
     ck.assumptions += [
         "derived values covered: bbox / size / repr / is_visible / descendants / find of documents, groups and pixel layers; "
-        "mask, vector_mask, origination, effects caches and numpy/topil/composite exports need layer kinds that only come from files "
-        "and are observed through the saved bytes only",
+        "the exporting reads topil / numpy / composite / save(scratch buffer) / mask / effects / print are run between edits and "
+        "judged by what follows (stored state, answers, composite, saved bytes vs the run without them); their own return values "
+        "and the vector_mask / origination caches (layer kinds that only come from files) are not compared",
         "shape-layer bbox cache (ShapeLayer._bbox) is not reachable through the public constructors and is not modelled",
     ]
     return ck.finish()
